@@ -50,7 +50,7 @@ let answer w obs =
   | "G" :: ds :: k :: rest ->
     d := int_of_string ds; kind := k;
     let n = !d in
-    if k = "affine" || k = "chg" || k = "matrix" then begin
+    if k = "affine" || k = "chg" || k = "matrix" || k = "offs" then begin
       let qs = List.map parse_q rest in
       mat := List.init n (fun i -> take n (drop (i * n) qs));
       off := take n (drop (n * n) qs)
